@@ -27,7 +27,7 @@ use std::time::{Duration, Instant};
 use surf_n_term::encoder::{Encoder, TTYEncoder};
 use surf_n_term::verif_c17::{self, Rec};
 use surf_n_term::{
-    DecMode, Error, Face, KeyMod, KeyName, Position, SystemTerminal, Terminal, TerminalAction, TerminalCaps,
+    TerminalSurfaceExt, DecMode, Error, Face, KeyMod, KeyName, Position, SystemTerminal, Terminal, TerminalAction, TerminalCaps,
     TerminalCommand, TerminalEvent, TerminalWaker,
 };
 use verif_harness::out::{Out, hex};
@@ -149,6 +149,8 @@ struct Session {
     /// `Some((k, quit))`: drive the steps' polls through `Terminal::run`; the handler's k-th call returns an
     /// error (`quit = false`) or `TerminalAction::Quit` (`quit = true`)
     run_handler: Option<(usize, bool)>,
+    /// with `run_handler`: drive through `Terminal::run_render` (renderer, error clean-up path, re-creation on Resize)
+    render: bool,
     /// selects the line settings installed on the pty before the terminal is opened
     termios: u64,
     /// the peer answers the size queries, so that the terminal takes its size from escape sequences
@@ -161,7 +163,7 @@ impl Session {
         json!({
             "steps": self.steps.iter().map(|s| s.token()).collect::<Vec<_>>(),
             "drop_at": self.drop_at, "run_handler": self.run_handler.map(|(k, q)| json!([k, q])),
-            "termios": self.termios.to_string(), "size_esc": self.size_esc, "label": self.label,
+            "termios": self.termios.to_string(), "size_esc": self.size_esc, "render": self.render, "label": self.label,
         })
     }
     fn from_json(v: &Value) -> Option<Session> {
@@ -171,6 +173,7 @@ impl Session {
             run_handler: v["run_handler"].as_array().and_then(|a| Some((a.first()?.as_u64()? as usize, a.get(1)?.as_bool()?))),
             termios: v["termios"].as_str().and_then(|s| s.parse().ok()).unwrap_or(0),
             size_esc: v["size_esc"].as_bool().unwrap_or(false),
+            render: v["render"].as_bool().unwrap_or(false),
             label: v["label"].as_str().unwrap_or("replay").to_string(),
         })
     }
@@ -551,6 +554,55 @@ fn poll_model(recs: &[Rec], timeout_ns: Option<u128>, size_esc: bool) -> PollMod
     m
 }
 
+/// requests the loop has seen and must have turned into queue entries within the same iteration
+fn trace_oracle(recs: &[Rec], size_esc: bool, io_error: bool) -> Vec<(&'static str, String, String)> {
+    let mut out = Vec::new();
+    // split into iterations
+    let mut iters: Vec<Vec<&Rec>> = Vec::new();
+    for r in recs {
+        match r {
+            Rec::Iter { .. } | Rec::Break => iters.push(vec![r]),
+            _ => {
+                if let Some(last) = iters.last_mut() {
+                    last.push(r);
+                }
+            }
+        }
+    }
+    let n = iters.len();
+    for (idx, it) in iters.iter().enumerate() {
+        // the iteration in which the poll failed with an I/O error may have been cut short
+        let cut = io_error && idx + 1 == n;
+        for (i, r) in it.iter().enumerate() {
+            let rest = &it[i + 1..];
+            match r {
+                Rec::WakerPending(k) if *k > 0 && *k != u64::MAX => {
+                    let next_stop = rest.iter().position(|x| matches!(x, Rec::TtyRead(_))).unwrap_or(rest.len());
+                    if !rest[..next_stop].iter().any(|x| matches!(x, Rec::Pushed(t) if t == "wake")) && !cut {
+                        out.push(("the waker pipe held bytes when the loop read it, but no Wake event was queued",
+                            format!("Wake queued in the iteration that drains {k} pending byte(s)"), "no Wake queued".to_string()));
+                    }
+                }
+                Rec::Signal(sig) if *sig == libc::SIGWINCH => {
+                    let next_stop = rest.iter().position(|x| matches!(x, Rec::Signal(_) | Rec::WakerPending(_) | Rec::TtyRead(_))).unwrap_or(rest.len());
+                    let seg = &rest[..next_stop];
+                    let ok = if size_esc {
+                        seg.iter().any(|x| matches!(x, Rec::Queued(_)))
+                    } else {
+                        seg.iter().any(|x| matches!(x, Rec::Pushed(t) if t == "resize"))
+                    };
+                    if !ok && !cut {
+                        out.push(("a SIGWINCH taken from the pending set queued neither a Resize event nor the size query",
+                            if size_esc { "size query queued".to_string() } else { "Resize queued".to_string() }, "nothing queued".to_string()));
+                    }
+                }
+                _ => {}
+            }
+        }
+    }
+    out
+}
+
 fn result_token(r: &Result<Option<TerminalEvent>, Error>) -> String {
     match r {
         Ok(None) => "ok:none".into(),
@@ -622,8 +674,9 @@ struct Runner {
     session_thread: libc::pthread_t,
     // observations
     keys_seen: Vec<u8>,
-    last_wake_event: Option<Instant>,
-    last_resize_event: Option<Instant>,
+    /// return times of the polls that delivered a `Wake` / a `Resize`
+    wake_events: Vec<Instant>,
+    resize_events: Vec<Instant>,
     term_raised: Option<Instant>,
     quit_seen: bool,
     hung_up: bool,
@@ -671,7 +724,11 @@ impl Runner {
         self.out.coalesced_reads += m.waker_reads.iter().filter(|k| **k > 1).count();
         self.req.push_str(&format!(" p:{}:{}", timeout_ns.map(|t| t.to_string()).unwrap_or("n".into()), m.env));
         self.exp.push(format!("{}[{}]{}r0[{}]", result_token(result), list(&m.pushed), self.state_token(term), m.reads.join(",")));
-        // oracle
+        // oracle on what the loop saw (hook records): a non-empty waker pipe that was read queues Wake; a SIGWINCH taken
+        // from the pending set queues Resize (ioctl size) or the size query (escape-sequence size)
+        for (what, exp, got) in trace_oracle(&recs, self.size_esc, matches!(result, Err(e) if !matches!(e, Error::Quit))) {
+            self.fail(what, exp, got);
+        }
         let elapsed = ended - started;
         if let Some(t) = timeout {
             if elapsed > t + SLACK {
@@ -687,11 +744,11 @@ impl Runner {
         match result {
             Ok(Some(TerminalEvent::Wake)) => {
                 self.out.wake_events += 1;
-                self.last_wake_event = Some(ended);
+                self.wake_events.push(ended);
             }
             Ok(Some(TerminalEvent::Resize(_))) => {
                 self.out.resizes += 1;
-                self.last_resize_event = Some(ended);
+                self.resize_events.push(ended);
             }
             Ok(Some(TerminalEvent::Key(key))) => {
                 if let (KeyName::Char(c), true) = (key.name, key.mode == KeyMod::EMPTY) {
@@ -713,8 +770,23 @@ impl Runner {
                 self.out.quits += 1;
                 self.quit_seen = true;
                 self.poll_failed = true;
-                if self.term_raised.is_none() && !self.hung_up && self.out.inconclusive.is_none() {
-                    self.out.inconclusive = Some("unexpected-quit".into());
+                if self.term_raised.is_none() && !self.hung_up {
+                    // nobody asked for it: tell the known benign causes (the trace shows them) from a spurious quit
+                    let empty_read = recs.iter().any(|x| matches!(x, Rec::TtyRead(b) if b.is_empty()));
+                    let term_signal = recs.iter().any(|x| matches!(x, Rec::Signal(n) if [libc::SIGTERM, libc::SIGINT, libc::SIGQUIT].contains(n)));
+                    if empty_read {
+                        // read returned 0 / EAGAIN after select reported the tty readable (guard_io turns it into Quit)
+                        if self.out.inconclusive.is_none() {
+                            self.out.inconclusive = Some("quit-on-empty-read".into());
+                        }
+                    } else if term_signal {
+                        if self.out.inconclusive.is_none() {
+                            self.out.inconclusive = Some("external-termination-signal".into());
+                        }
+                    } else {
+                        self.fail("poll returned Err(Quit) although no termination signal was raised, the tty is not hung up and no read returned 0",
+                            "an event or None".into(), "Err(Quit)".into());
+                    }
                 }
             }
             Err(e) => {
@@ -872,15 +944,16 @@ impl Runner {
             v.push(("termination signal did not surface as Err(Quit)", t));
             return v;
         }
-        if let Some(t) = self.wake_times.lock().unwrap().iter().max() {
-            if self.last_wake_event.is_none_or(|e| e < *t) {
-                v.push(("a completed wake() was not followed by a Wake event", *t));
-            }
+        // EVERY request is matched against the events delivered after it was issued (requests may coalesce: one
+        // event answers all requests issued before the poll that delivered it returned); the oldest open one is named
+        let open = |requests: &[Instant], events: &[Instant]| -> Option<Instant> {
+            requests.iter().filter(|t| !events.iter().any(|e| e >= *t)).min().cloned()
+        };
+        if let Some(t) = open(&self.wake_times.lock().unwrap(), &self.wake_events) {
+            v.push(("a completed wake() was not followed by a Wake event", t));
         }
-        if let Some(t) = self.winch_times.lock().unwrap().iter().max() {
-            if self.last_resize_event.is_none_or(|e| e < *t) {
-                v.push(("SIGWINCH was not followed by a Resize event", *t));
-            }
+        if let Some(t) = open(&self.winch_times.lock().unwrap(), &self.resize_events) {
+            v.push(("SIGWINCH was not followed by a Resize event", t));
         }
         if self.keys_seen.len() < self.typed.lock().unwrap().len() && !self.hung_up {
             v.push(("typed bytes were not delivered as key events", Instant::now() - Duration::from_millis(1)));
@@ -1000,7 +1073,7 @@ fn run_session(s: &Session) -> Outcome {
         wake_times: Default::default(), winch_times: Default::default(), waker_threads: vec![], helper_threads: vec![],
         keys_tx, typed, typist_pending, master_closed, in_poll: Arc::new(Mutex::new(InPoll { since: None })),
         stuck: Arc::new(AtomicBool::new(false)), session_thread: unsafe { libc::pthread_self() },
-        keys_seen: vec![], last_wake_event: None, last_resize_event: None, term_raised: None, quit_seen: false,
+        keys_seen: vec![], wake_events: vec![], resize_events: vec![], term_raised: None, quit_seen: false,
         hung_up: false, poll_failed: false, input_log: vec![], frames_dropped: false, keep_stalled: s.label.contains("stalled"),
         req: format!("c17 s o:{before_tok}:1111 z:{}", if size_esc { 1 } else { 0 }),
         exp: vec![format!("saved={}/5", words_token(&saved)), "q0/0e0".into()],
@@ -1078,10 +1151,12 @@ fn run_session(s: &Session) -> Outcome {
                         r.exec_other(&mut term, &step);
                     }
                     if let Some(first) = first {
+                        // `run_render` makes its first poll with a zero time-out whatever the script says
+                        let first = if s.render { Some(Duration::new(0, 0)) } else { first };
                         current = Some((r.before_poll(first), first));
-                        let res: Result<(), HErr> = term.run(first, |term, event| {
+                        let mut core = |term: &mut SystemTerminal, event: Option<TerminalEvent>| -> Result<TerminalAction<()>, HErr> {
                             let (started, timeout) = current.take().unwrap();
-                            r.after_poll(term, &Ok(event), started, timeout);
+                            r.after_poll(&*term, &Ok(event), started, timeout);
                             calls += 1;
                             if calls >= k {
                                 return if quit { Ok(TerminalAction::Quit(())) } else { Err(HErr::Injected) };
@@ -1099,9 +1174,23 @@ fn run_session(s: &Session) -> Outcome {
                                 r.exec_other(term, &step);
                             }
                             Ok(TerminalAction::Quit(()))
-                        });
+                        };
+                        let res: Result<(), HErr> = if s.render {
+                            let mut frames = 0usize;
+                            term.run_render(|term, event, mut surface| {
+                                // something to render: a box every frame, a coloured background every other frame
+                                frames += 1;
+                                if frames % 2 == 0 {
+                                    surface.erase("bg=#102030".parse().unwrap());
+                                }
+                                surface.draw_box(None);
+                                core(term, event)
+                            })
+                        } else {
+                            term.run(first, |term, event| core(term, event))
+                        };
                         if let Err(HErr::Term(e)) = res {
-                            // the poll inside `run` failed
+                            // the poll inside `run` / `run_render` failed
                             let (started, timeout) = current.take().unwrap_or((Instant::now(), None));
                             r.after_poll(&term, &Err(e), started, timeout);
                         }
@@ -1130,13 +1219,11 @@ fn run_session(s: &Session) -> Outcome {
         r.out.class = Some("termination-signal-pending-at-drop".into());
     }
     let _ = verif_c17::take_trace();
-    let mut drop_started: Option<Instant> = None;
     if panicked {
         // do not run the destructor of a terminal that panicked (it would poll again)
         std::mem::forget(term);
     } else {
         let t_drop = Instant::now();
-        drop_started = Some(t_drop);
         let dropped = guarded(move || drop(term));
         r.out.drop_ms = t_drop.elapsed().as_millis();
         if dropped.is_err() {
@@ -1147,10 +1234,6 @@ fn run_session(s: &Session) -> Outcome {
     verif_c17::enable(false);
     unsticker_stop.store(true, Ordering::SeqCst);
     let _ = unsticker.join();
-    let dispose_polls = recs.iter().filter(|x| matches!(x, Rec::Dispose { step: "poll", .. })).count();
-    if r.out.drop_ms > 1000 * dispose_polls as u128 + SLACK.as_millis() {
-        r.fail("drop took longer than its waits allow", format!("{dispose_polls} waits of at most 1 s (+ 5 s)"), format!("{} ms", r.out.drop_ms));
-    }
     // everything the kernel accepted reaches the peer
     let accepted: usize = recs.iter().map(|x| if let Rec::TtyWrite { accepted, .. } = x { *accepted } else { 0 }).sum();
     r.shared.paused.store(false, Ordering::SeqCst);
@@ -1168,7 +1251,6 @@ fn run_session(s: &Session) -> Outcome {
     }
     let after = termios_words(keep);
     let received = r.shared.received.lock().unwrap().clone();
-    let at_da = r.shared.at_da.lock().unwrap().clone();
     if !panicked && !recs.is_empty() {
         // ---- oracle: restore
         if !hung_up {
@@ -1195,18 +1277,6 @@ fn run_session(s: &Session) -> Outcome {
                         String::from_utf8_lossy(need).escape_default().to_string(),
                         String::from_utf8_lossy(&tail[tail.len().saturating_sub(64)..]).escape_default().to_string());
                 }
-            }
-            // dispose waits for the peer's answer to the DA1 query that ends the closing sequence before it restores the
-            // settings — unless its wait ends early (termination signal pending: Err(Quit); 1 s without answer)
-            // — so a sample the peer took less than 0.9 s after drop began, with no termination signal around, was
-            // taken while dispose was still waiting for the answer
-            if let (Some(t_drop), Some((_, Some(words), at))) = (drop_started, at_da.iter().rev().find(|(pos, _, _)| *pos > send_before)) {
-              if r.term_raised.is_none() && *at < t_drop + Duration::from_millis(900) {
-                if words[3] & (libc::ICANON as u32) != 0 && before.as_ref().is_some_and(|b| b[3] & (libc::ICANON as u32) != 0) {
-                    r.fail("the line settings were restored before the closing sequence was delivered",
-                        "raw mode while the peer reads the closing sequence".into(), words_token(words));
-                }
-              }
             }
         }
         // ---- trace refinement of dispose
@@ -1261,11 +1331,7 @@ fn run_session(s: &Session) -> Outcome {
             r.exp.push(format!("{}[{}]q{}e{}", if restore_ok { "ok" } else { "err" }, log.join(","), last_state.0, last_state.1));
         }
     }
-    // ---- no spurious wake events
     r.out.wakes = r.wake_times.lock().unwrap().len();
-    if r.out.wake_events > r.out.wakes && !r.stuck.load(Ordering::SeqCst) && r.out.failures.is_empty() {
-        r.fail("more Wake events than wake() calls", format!("at most {}", r.out.wakes), format!("{}", r.out.wake_events));
-    }
     // shut down
     r.shared.stop.store(true, Ordering::SeqCst);
     let Runner { keys_tx, req, exp, mut out, .. } = r;
@@ -1278,7 +1344,8 @@ fn run_session(s: &Session) -> Outcome {
             libc::close(master);
         }
     }
-    out.trace = Some((req, exp.join(" ")));
+    // the bytes the renderer queues are not known to the harness: render sessions are judged by the oracle only
+    out.trace = if s.render { None } else { Some((req, exp.join(" "))) };
     out
 }
 
@@ -1289,7 +1356,7 @@ fn keys(rng: &mut Rng, n: usize) -> Vec<u8> {
 }
 
 fn sess(label: &str, steps: Vec<Step>, termios: u64) -> Session {
-    Session { steps, drop_at: None, run_handler: None, termios, size_esc: termios % 5 == 0, label: label.to_string() }
+    Session { steps, drop_at: None, run_handler: None, render: false, termios, size_esc: termios % 5 == 0, label: label.to_string() }
 }
 
 /// the scripted session that is dropped at every step index
@@ -1349,6 +1416,29 @@ fn fixed_sessions(rng: &mut Rng) -> Vec<Session> {
         Session { drop_at: Some(3), ..sess("pendingterm-drop-small-output", vec![Exec(4), Flush, Term(libc::SIGINT)], rng.next()) },
         sess("drop-with-frames", vec![Write(20, 1), Flush, Write(30, 2), Flush, Exec(0), Flush], rng.next()),
     ];
+    // exact numbers of pending wake bytes (a drain loop with a small buffer loses multiples of its size)
+    for n in [4usize, 8, 16, 32, 64, 128, 192, 256] {
+        v.push(sess(&format!("wake-count-{n}"), vec![WakeInline(n), z(), z(), ms(2)], rng.next()));
+    }
+    // a burst of SIGWINCH while output is pending: the second one is handled while the first Resize is still queued
+    v.push(Session { size_esc: false, ..sess("winch-burst-pending-output", vec![PeerPause, Write(300_000, 12), Flush, Winch, WinchAsync(3000),
+        ms(20), PeerResume, ms(30), z(), z()], rng.next()) });
+    v.push(Session { size_esc: true, ..sess("winch-burst-pending-output-escape-size", vec![PeerPause, Write(300_000, 13), Flush, Winch, WinchAsync(3000),
+        ms(20), PeerResume, ms(30), z(), z(), z()], rng.next()) });
+    // Terminal::run_render: handler error at call k, quit, a Resize mid-session (renderer re-created), a poll error
+    // (termination signal: erase + frame + poll(0) clean-up path), frames pending at drop
+    for (k, quit, term_signal) in [(1usize, false, false), (3, false, false), (5, false, false), (4, true, false), (99, false, false), (99, false, true)] {
+        let mut steps = vec![Poll(Timeout::Zero), WakeInline(1), Keys(b"rs".to_vec(), 0), KeysSync, Poll(Timeout::Ms(5)), Poll(Timeout::Zero),
+            Winch, Poll(Timeout::Ms(5)), Poll(Timeout::Zero), WakeThreads(vec![vec![3000]]), Poll(Timeout::Inf)];
+        if term_signal {
+            steps.extend([Term(libc::SIGTERM), Poll(Timeout::Ms(5)), Poll(Timeout::Zero)]);
+        }
+        steps.push(Poll(Timeout::Zero));
+        let mut s = sess(&format!("render-{}-{k}", if term_signal { "sigterm" } else if quit { "quit" } else { "error" }), steps, rng.next());
+        s.run_handler = Some((k, quit));
+        s.render = true;
+        v.push(s);
+    }
     for (k, quit) in [(1, false), (2, false), (4, false), (3, true), (99, false)] {
         let mut s = sess(&format!("run-handler-{}-{k}", if quit { "quit" } else { "error" }),
             vec![Poll(Timeout::Zero), WakeInline(1), Keys(b"rs".to_vec(), 0), KeysSync, Poll(Timeout::Ms(5)), Exec(2), Poll(Timeout::Zero),
@@ -1379,7 +1469,7 @@ fn random_session(rng: &mut Rng, idx: u64) -> Session {
                 wake_guaranteed = false;
                 steps.push(Poll(t));
             }
-            5 => steps.push(WakeInline(1 + rng.below(4) as usize)),
+            5 => steps.push(WakeInline(if rng.chance(1, 4) { 1 + rng.below(300) as usize } else { 1 + rng.below(4) as usize })),
             6..=8 => {
                 let threads = 1 + rng.below(8) as usize;
                 let ts: Vec<Vec<u64>> = (0..threads).map(|_| (0..1 + rng.below(3)).map(|_| rng.below(6000)).collect()).collect();
@@ -1432,7 +1522,10 @@ fn random_session(rng: &mut Rng, idx: u64) -> Session {
     let mut s = sess(&format!("random-{idx}"), steps, rng.next());
     match rng.below(10) {
         0..=2 => s.drop_at = Some(rng.below(s.steps.len() as u64 + 1) as usize),
-        3 => s.run_handler = Some((1 + rng.below(6) as usize, rng.chance(1, 3))),
+        3 => {
+            s.run_handler = Some((1 + rng.below(6) as usize, rng.chance(1, 3)));
+            s.render = rng.chance(1, 3);
+        }
         _ => {}
     }
     s
